@@ -49,6 +49,11 @@ CHECKS = {
         text="For Total/Average/PerAntenna power constraints every item must have power <= target (non-zero input), within 0.1% of it (input power >= 1e-4), be the input times one positive real factor, and the constraint must be idempotent and invariant to input rescaling; PeakAmplitude bounds every sample and leaves inner samples untouched; PAPR output <= limit on non-sparse items; CompositeConstraint / combine_constraints / apply_constraint_chain equal sequential application bit for bit; create_ofdm_constraints / create_mimo_constraints satisfy all configured upper limits simultaneously on feasible configurations.",
         note="Batch = dim 0 when >1 rows (documented); float32 tolerances 1e-3 on power, 1e-4 on ratios; PAPR demanded on the non-sparse family stated in the property.",
         design="4/C08"),
+    "C09": dict(
+        technique="enumeration of (code, decoder) x (modulator, demodulator) pipelines built with ChannelCodeModel; harness-placed adversarial flip patterns and bounded symbol displacements through LambdaChannel; round-trip oracle message -> pipeline -> message",
+        text="19 (thorough 24) code/decoder sets x every memoryless and alternating modulation option are assembled through the library's channel-code pipeline (hard decoders behind hard demodulation, soft decoders behind soft demodulation with noise_var forwarded as a pipeline keyword), framed as m blocks per row so that code and symbol framing both divide, and run over PerfectChannel, a channel that flips <= t bits per block (every single position for n<=31 plus seeded multi-bit patterns) and a channel that displaces each symbol by 0.49 d_min in seeded directions; messages exhaustive for k.m<=6, seeded otherwise; the output must equal the message.",
+        note="Differential/offset schemes are not paired (their demodulators return fewer bits than were modulated: block framing does not match). The flip clause uses t from d_true and excludes the Reed-Solomon-style family (recorded finding KF-C03-RS-DISTANCE); polar encoders take one block per row.",
+        design="4/C09"),
     "C10": dict(
         technique="Hypothesis-generated parity-check graphs (sparse, cycle-free by union-find) and real LLR vectors against float64 references: codebook marginalisation, brute-force soft-ML, textbook flooding min-sum; exhaustive codewords x magnitudes for the clean clause",
         text="Clean LLRs (|LLR| 0.5..50) of every codeword (k<=8) or seeded codewords are decoded by BP (iterations 1..20, exact/Taylor), min-sum (scaling/offset/normalized), Wagner and soft Reed-Muller on a fixed LDPC matrix, generated sparse H and catalogue codes, output shape (...,k); Wagner's output is compared with the maximum correlation over all even-weight words on generated tie-free real vectors; BP soft outputs equal brute-force bitwise posteriors on generated cycle-free graphs (inside the decoder's clipping range); min-sum soft outputs equal a textbook flooding min-sum and are homogeneous under input rescaling (offset 0, inside the +-500 clamp); a single weak wrong-sign LLR is corrected.",
@@ -89,6 +94,16 @@ CHECKS = {
         text="Sequential/Configurable/DeepJSCC/channel-code pipelines must call each recording stage once, in declared order, with forwarded args/kwargs, under histories of add_step/remove_step/run (out-of-range remove raises); ParallelModel is run with every feasible completion permutation of 1..4 (thorough 5) branches for worker counts 1..n and default and must return each result under its branch name and hand the aggregator the declared order; BranchingModel runs exactly the first true branch else default else raises; FeedbackChannelModel performs exactly max_iterations rounds in the documented order; MultipleAccessChannelModel encodes user i with its own encoder, sums, and calls constraint and channel once.",
         note="The harness controls completion order only (Events + 10 ms settle); preemption inside one stage is out of reach. Channel-code order is the class's declared step list (encoder, modulator, constraint, channel, demodulator, decoder).",
         design="4/C17"),
+    "C19": dict(
+        technique="torch.autograd.gradcheck / 8-direction central finite differences on seeded float64 inputs under a frozen RNG for every channel and constraint stage; end-to-end shape, range, bandwidth-ratio and per-parameter gradient-reach oracles on the bundled architectures",
+        text="AWGN, Laplacian, phase-noise, Rayleigh/Rician fading, nonlinear (direct/cartesian/polar, with noise) channels and Total/Average/PerAntenna/PAPR/PeakAmplitude constraints are differentiated at seeded real and complex float64 inputs of three scales with the RNG re-seeded before every call: outputs require grad, backward runs, gradients are finite and match finite differences; Bourtsoulatze2019, Tung2022 Q/Q2, Kurka2020, Yilmaz2024 WZ (small/full/conditional) and Yilmaz2023 NOMA pipelines are run for image sizes {16,32,48,64} admitted by their stride and batches {1,2,5}: latent shape and bandwidth ratio as documented, output shape = input shape, sigmoid decoders in [0,1], every encoder parameter receives a finite, not identically zero gradient through constraint, channel and decoder.",
+        note="SNR parameterisations go through a float32 cast and are compared by central differences (eps 1e-2, 5e-3 relative). A parameter is flagged only if its gradient is exactly zero for three independent initialisations and inputs. Reduced widths except Kurka's fixed 256 filters.",
+        design="4/C19"),
+    "C20": dict(
+        technique="metamorphic batch relations (batch == stack of singles, permutation equivariance, layout regrouping agrees-or-raises, repeatability, input immutability) on seeded batches with planted special members + Hypothesis stateful call histories compared with a fresh object",
+        text="For 140+ components (catalogue encoders, hard/soft decoders, polar encoder/decoders, every memoryless modulator and hard/soft demodulator, Total/Average/PAPR/PerAntenna constraints) seeded batches of 1..6 pairwise different members, with erroneous rows planted among zero-syndrome rows and an all-zero signal row among non-zero ones, must give f(batch) == stack(f(member)), be equivariant under every permutation (size<=4), give the same values in 1-D, (B1,B2,n) and (B,2n) layouts or raise, repeat identically, leave the input tensor unchanged, and answer interleaved call histories (Hypothesis RuleBasedStateMachine) like a fresh object.",
+        note="Float outputs within 1e-5 relative; ML-type decoders are fed tie-free words (codeword + <= t errors). A layout a component does not support may raise (counted), a returned tensor must agree.",
+        design="4/C20"),
     "C18": dict(
         technique="exhaustive enumeration of small domains + Hypothesis-generated operands against an independent int-bitmask GF(2)[X]/GF(2^m) reference",
         text="Every clause of C18 (Euclidean division, gcd/Bezout, lcm, ring laws; field axioms, primitive order, inverse, power, trace, conjugates, minimal polynomial) is evaluated on all polynomial pairs of degree < 8, all field pairs for m <= 7 (thorough: <= 10), all triples for m <= 4 (thorough: 5), every element for m <= 8 and on Hypothesis-generated operands up to degree 200 / m = 16, and compared with a reference that shares no code with kaira. Exploration: exhaustive on the stated finite grids, sampling above them.",
